@@ -25,6 +25,8 @@ EXTENDS Integers, Sequences, FiniteSets, TLC
 
 CONSTANTS Classes,      \* set of class records (see ColumnWriterMC)
           RowCounts, NullPats, ValPats, Modes, RppWants, Versions, RgOffsets, StatsModes,
+          WriteOpts,    \* further write options that change how a value is STORED but not the table: "default" | "int96"
+                        \* (times='int96' for timestamp columns) | "explicit" (object_encoding named for an object column)
           Codecs        \* compression option: the layout (page cuts are by uncompressed size) and the cells do not depend on it
 
 NULL == -1
@@ -81,9 +83,11 @@ VARIABLES inp,     \* the chosen input
 vars == <<inp, pc, rgs, cur, todo>>
 
 Inputs == [cls : Classes, n : RowCounts, nullpat : NullPats, valpat : ValPats, mode : Modes,
-           rppwant : RppWants, v : Versions, rgo : RgOffsets, stats : StatsModes, codec : Codecs]
+           rppwant : RppWants, v : Versions, rgo : RgOffsets, stats : StatsModes, codec : Codecs, opt : WriteOpts]
 
 Sensible(i) == /\ (i.nullpat # "none" => i.cls.sentinel # "NONE")       \* the dtype can hold a missing cell
+               /\ (i.opt = "int96" => i.cls.sentinel = "NAT" /\ i.cls.name # "td_ns")
+               /\ (i.opt = "explicit" => i.cls.sentinel = "OBJ")
                /\ Rpp(i) >= 1                                           \* page at least one element
                /\ (i.n = 0 => i.nullpat = "none" /\ i.valpat = "const")
 
